@@ -22,9 +22,11 @@ def mat_pairs(A, B):
 
 
 def group_tasks(tier):
-    gs = list(G_.CORE) + [G_.B1, G_.B2] if tier == "quick" else G_.CORE + G_.BUNDLES
+    gs = list(G_.CORE) + [G_.B1, G_.B2, G_.B5, G_.B6] if tier == "quick" else G_.CORE + G_.BUNDLES + [G_.B5, G_.B6]
     scal = ["d"] if tier == "quick" else ["d", "f"]
-    return [(g.name, s) for g in gs for s in scal]
+    # B5 / B6 (Bundles with a Galilei / SE_K(3) part) in double only: in single precision Galilei::Ad computes through a hard-coded double
+    # temporary, and irsx's cell model does not follow the mixed 4/8-byte stores into a strided block (native results are right)
+    return [(g.name, s) for g in gs for s in scal if not (g.name in ("B5", "B6") and s == "f")]
 
 
 def run_group(gname, s, tier="quick", seed=0, canary=False):
@@ -146,7 +148,7 @@ def prebuild(tier):
 
 TRUSTED = ["A1 machine arithmetic read as real arithmetic (rounding to 1e-12/1e-5 is NOT decided here)",
            "A6 clang 14 -O2 pipeline, irsx, exact rational normal-form procedure (irsx/poly.py)",
-           "A7 group list sampled: " + ", ".join(g.name for g in G_.CORE + G_.BUNDLES),
+           "A7 group list sampled: " + ", ".join(g.name for g in G_.CORE + G_.BUNDLES + [G_.B5, G_.B6]) + " (B5 = Bundle<Galilei, SO3>, B6 = Bundle<R1, SE_2(3)>: double only)",
            "A8 scalar Eigen code paths (EIGEN_DONT_VECTORIZE)"]
 ASSUMPTIONS = ["unit-norm representation constraint of every group-valued input (contract precondition)",
                "associativity / two-sided identity / inverse follow from the matrix identities (A5)"]
